@@ -557,17 +557,21 @@ func typedFromTexts(shape string, v Value) []any {
 
 func replay(r *ev.Run, path string) int {
 	var w struct {
-		Combo     *Combo    `json:"combo"`
-		Name      string    `json:"name"`
-		Value     Value     `json:"value"`
-		CookieHex string    `json:"cookie_value_hex"`
-		Spelling  *Spelling `json:"spelling"`
+		Combo     *Combo       `json:"combo"`
+		Name      string       `json:"name"`
+		Value     Value        `json:"value"`
+		CookieHex string       `json:"cookie_value_hex"`
+		Spelling  *Spelling    `json:"spelling"`
+		Location  string       `json:"location"`
+		Params    []multiParam `json:"parameters"`
 	}
 	if err := ev.ReadReplay(path, &w); err != nil {
 		fmt.Println("ERROR", err)
 		return 2
 	}
 	switch {
+	case len(w.Params) > 0:
+		replayMulti(r, multiWitness{Location: w.Location, Params: w.Params, Rule: "parameters that round-trip alone must be carried and decoded identically when one encoder and one decoder serve all parameters of the request"})
 	case w.Spelling != nil:
 		_, cleanup, err := genlab.EnterScratchModule("c06")
 		if err != nil {
@@ -623,6 +627,7 @@ func Main(args []string) int {
 	exhaustivePart(r, col, combos, z)
 	randomPart(r, col, combos, r.N(150000, 1500000))
 	namesPart(r, col, combos)
+	multiPart(r, combos, r.N(40000, 600000))
 	cookieLen := r.N(2, 3)
 	cookieEscapePart(r, combos, cookieLen, z.primLen)
 	samplePart(r, combos)
